@@ -104,9 +104,9 @@ func mainCheck(args []string) int {
 	if t := os.Getenv("VERIF_TIER"); t != "" && *tier == "" {
 		*tier = t
 	}
-	timeout := 15 * time.Second
+	timeout := 30 * time.Second
 	if *tier == "thorough" {
-		timeout = 60 * time.Second
+		timeout = 90 * time.Second
 	}
 	if *timeoutS > 0 {
 		timeout = time.Duration(*timeoutS) * time.Second
@@ -252,6 +252,26 @@ func mainCheck(args []string) int {
 	}
 	vcMs := time.Since(start).Milliseconds() - loadMs
 	solveAll(jobs, timeout, 10, *tier == "thorough" && os.Getenv("VERIF_AGREE") != "")
+	// Robustness against a loaded machine: an obligation that came back undecided (timeout / unknown, no model) is
+	// tried once more, alone-ish (2 at a time) and with three times the budget, before it is reported.  A refutation
+	// (sat) is never retried.  Costs time only when something is about to be reported.
+	var retry []solveJob
+	for _, j := range jobs {
+		if !j.o.Cover && j.o.Result != "unsat" && j.o.Result != "sat" && j.o.Result != "over-cap" && j.o.Kind != "SUBSET" {
+			retry = append(retry, j)
+		}
+	}
+	if len(retry) > 0 && len(retry) <= 12 && os.Getenv("VERIF_NO_RETRY") == "" {
+		for _, j := range retry {
+			j.o.Result, j.o.Solver, j.o.Model = "", "", ""
+		}
+		solveAll(retry, 3*timeout, 2, false)
+		for _, j := range retry {
+			if j.o.Result == "unsat" {
+				j.o.Solver += " [retry]"
+			}
+		}
+	}
 	known := loadKnownFindings(filepath.Join(*verif, "known_findings.txt"))
 	// collect
 	total, discharged, abstractedN, covers, coverBad := 0, 0, 0, 0, 0
